@@ -34,5 +34,51 @@ class C3(Base):
 CLASSES = [C0, C1, C2, C3]
 
 
+class N0(Base):
+    idx = 10
+
+
+class N1(Base):
+    idx = 11
+
+
+class N2(Base):
+    idx = 12
+
+
+class N3(Base):
+    idx = 13
+
+
+NESTED = [N0, N1, N2, N3]
+
+
+class Holder(Base):
+    """a component with a class-typed parameter of its own: links may target the parameters of that nested object"""
+
+    def __init__(self, inner: Base, f0: Any = None, f1: Any = None, f2: Any = None, f3: Any = None, own: int = 1):
+        super().__init__(f0, f1, f2, f3, own)
+        self.inner = inner
+
+
+class H0(Holder):
+    idx = 0
+
+
+class H1(Holder):
+    idx = 1
+
+
+class H2(Holder):
+    idx = 2
+
+
+class H3(Holder):
+    idx = 3
+
+
+HOLDERS = [H0, H1, H2, H3]
+
+
 def fn_tag(v):
     return ("fn", v)
